@@ -21,11 +21,58 @@ def mentions(node):
 
 
 def guards_of(cfg, cfgnode, include_loops=False):
-    """Atoms (cond nodes with outcome) that guard the node: the cond dominates it and only that outcome leads to it."""
+    """Atoms (cond nodes with outcome) that guard the node: the cond dominates it and only that outcome leads to it.
+    A local that is nothing but a hoisted parameter read (`lim = params("key")`, one reaching definition) is replaced by that read."""
     out = []
     for (b, lab) in cfg.dominating_guards(cfgnode):
-        out.append((b, atom_of(cfg.ast_of(b), lab)))
+        t = cfg.ast_of(b)
+        out.append((b, atom_of(rebuild(t, lambda n: _param_local(cfg, t, n)), lab)))
     return out
+
+
+def rebuild(node, repl):
+    """Identity-preserving rewrite: `repl(sub)` returns a replacement node or None.  Sub-trees without a replacement are returned as the very same
+    objects (so tables keyed by id(node) -- resolved calls, CFG nodes -- keep working); only the spine above a replacement is copied."""
+    import copy
+    r = repl(node)
+    if r is not None:
+        return r
+    changed = False
+    new_fields = {}
+    for field, val in ast.iter_fields(node):
+        if isinstance(val, list):
+            nl = [rebuild(v, repl) if isinstance(v, ast.AST) else v for v in val]
+            if any(a is not b for a, b in zip(nl, val)):
+                changed = True
+            new_fields[field] = nl
+        elif isinstance(val, ast.AST):
+            nv = rebuild(val, repl)
+            if nv is not val:
+                changed = True
+            new_fields[field] = nv
+    if not changed:
+        return node
+    new = copy.copy(node)
+    for f, v in new_fields.items():
+        setattr(new, f, v)
+    return new
+
+
+def _param_local(cfg, at_ast, node):
+    if not (isinstance(node, ast.Name) and isinstance(node.ctx, ast.Load)):
+        return None
+    try:
+        defs = cfg.defs_reaching(at_ast, node.id)
+    except Exception:
+        return None
+    if len(defs) != 1:
+        return None
+    st = cfg.ast_of(list(defs)[0])
+    if isinstance(st, ast.Assign) and len(st.targets) == 1 and isinstance(st.targets[0], ast.Name) and isinstance(st.value, ast.Call) \
+            and isinstance(st.value.func, ast.Name) and st.value.func.id == "params" and len(st.value.args) == 1 and not st.value.keywords \
+            and isinstance(st.value.args[0], ast.Constant):
+        return st.value
+    return None
 
 
 def calls_in_expr(node):
@@ -126,3 +173,142 @@ def expand_locals(cfg, at_ast, expr, depth=3):
             return node
 
     return _Sub().visit(copy.deepcopy(expr))
+
+
+def inline_simple_calls(eng, expr, depth=2):
+    """Copy of `expr` in which every call of an internal one-expression helper (`def f(a, b): return <expr>`, docstring/comments aside) is replaced
+    by the helper's return expression with the arguments substituted -- so that rules matching an idiom see through an extracted helper.
+    Calls that do not bind cleanly (star arguments, several targets, more than one statement) are left alone."""
+    import copy
+    from ..resolve import bind_call
+
+    def substitute(tree, mapping):
+        class _S(ast.NodeTransformer):
+            def visit_Name(self, node):
+                if isinstance(node.ctx, ast.Load) and node.id in mapping:
+                    return copy.deepcopy(mapping[node.id])
+                return node
+        return _S().visit(tree)
+
+    def helper_expr(call, d):
+        ci = eng.res.calls.get(id(call))
+        if ci is None or len(ci.targets) != 1 or d <= 0:
+            return None
+        t = ci.targets[0]
+        fn = t.node
+        if not isinstance(fn, (ast.FunctionDef,)):
+            return None
+        body = [st for st in fn.body if not (isinstance(st, ast.Expr) and isinstance(st.value, ast.Constant))]
+        if len(body) != 1 or not isinstance(body[0], ast.Return) or body[0].value is None:
+            return None
+        bound = any(bd for (tt, bd) in eng.res.call_targets(ci.caller, call) if tt.fid == t.fid)
+        b = bind_call(call, t, bound and t.is_method)
+        if b.errors or b.star is not None or b.kwstar is not None:
+            return None
+        mapping = {}
+        pos = list(t.posparams)
+        if bound and t.is_method and pos:
+            if not isinstance(call.func, ast.Attribute):
+                return None
+            mapping[pos[0]] = call.func.value
+            pos = pos[1:]
+        for pn in pos + list(t.kwonly):
+            e = b.params.get(pn)
+            if e is None or isinstance(e, tuple):
+                dflt = t.defaults.get(pn)
+                if dflt is None:
+                    return None
+                e = dflt
+            mapping[pn] = tx(e, d)
+        return substitute(tx_children(copy.copy(body[0].value), d - 1, callee=True), mapping)
+
+    def tx_children(node, d, callee=False):
+        for field, val in ast.iter_fields(node):
+            if isinstance(val, list):
+                setattr(node, field, [tx(v, d) if isinstance(v, ast.AST) else v for v in val])
+            elif isinstance(val, ast.AST):
+                setattr(node, field, tx(val, d))
+        return node
+
+    def tx(node, d):
+        if isinstance(node, ast.Call):
+            r = helper_expr(node, d)
+            if r is not None:
+                return r
+        return tx_children(copy.copy(node), d)
+
+    return tx(expr, depth)
+
+
+class _FnView(object):
+    """A FunctionInfo look-alike whose body was rewritten (used to build a CFG over the rewritten body)."""
+    def __init__(self, fi, body):
+        self._fi = fi
+        self._body = body
+
+    def __getattr__(self, name):
+        return getattr(self._fi, name)
+
+    def body(self):
+        return self._body
+
+
+def unrolled(eng, fi, limit=64):
+    """`for k in ("a", "b", ...): body` over a literal sequence of constants -- written in place or bound to a module-level name -- is the same program
+    as the bodies written out one after the other.  Returns (function view, CFG over the unrolled body); the original objects if nothing was unrolled."""
+    import copy
+    from ..cfg import CFG
+    glob = eng.prog.modules[fi.module].globals if fi.module in eng.prog.modules else {}
+
+    def literal_seq(it):
+        if isinstance(it, ast.Name) and it.id in glob:
+            it = glob[it.id]
+        if isinstance(it, (ast.Tuple, ast.List)) and it.elts and len(it.elts) <= limit and all(isinstance(e, ast.Constant) for e in it.elts):
+            return list(it.elts)
+        return None
+
+    def subst(stmt, name, const):
+        class _S(ast.NodeTransformer):
+            def visit_Name(self, node):
+                if node.id == name and isinstance(node.ctx, ast.Load):
+                    return ast.copy_location(ast.Constant(value=const.value), node)
+                return node
+        return _S().visit(copy.deepcopy(stmt))
+
+    def simple(body, name):
+        for st in body:
+            for sub in ast.walk(st):
+                if isinstance(sub, (ast.Break, ast.Continue)):
+                    return False
+                if isinstance(sub, ast.Name) and sub.id == name and isinstance(sub.ctx, ast.Store):
+                    return False
+        return True
+
+    def tx(stmts):
+        out, changed = [], False
+        for st in stmts:
+            if isinstance(st, ast.For) and isinstance(st.target, ast.Name) and not st.orelse and simple(st.body, st.target.id):
+                seq = literal_seq(st.iter)
+                if seq is not None:
+                    for c in seq:
+                        out += [subst(b, st.target.id, c) for b in st.body]
+                    changed = True
+                    continue
+            new = st
+            for field in ("body", "orelse", "finalbody"):
+                sub = getattr(st, field, None)
+                if isinstance(sub, list) and sub and isinstance(sub[0], ast.stmt):
+                    nl, ch = tx(sub)
+                    if ch:
+                        if new is st:
+                            new = copy.copy(st)
+                        setattr(new, field, nl)
+                        changed = True
+            out.append(new)
+        return out, changed
+
+    body, changed = tx(fi.body())
+    if not changed:
+        return fi, eng.cfg(fi)
+    view = _FnView(fi, body)
+    return view, CFG(view)
